@@ -63,21 +63,28 @@ class P(Property):
     trusted_extra = [
         'coq/Model/HttpCrate.v: hand ports of the http crate 1.5.0 validators (name/value/method/status/scheme/authority/'
         'path-and-query/uri builder/HeaderMap capacity and order, core::str::from_utf8); tied to the crate only by the http.* '
-        'correspondence families',
+        'correspondence families; "parseable" in the specification is defined by the same ports',
         'HeaderMap::try_append failing through the hash-collision ("yellow") path is covered by the theorems (arbitrary '
         'oracle) but not exercised by the correspondence run',
-        'the stream-level effect (RESET_STREAM / STOP_SENDING actually written with the code) is observed by the request-stream '
-        'properties, here only the codes chosen at the three call sites are extracted from the source',
+        'the six call sites (resolve_request, recv_response, recv_trailers, send_request, send_response, send_trailers) are '
+        'executed on the real server / client over SimQuic with one HEADERS frame per message (field section produced / read '
+        'with h3\'s own stateless QPACK codec); chunking, interleaving and the QPACK layer itself belong to other properties',
+        'sections of more than 64 field lines are compared by refusal / number of delivered fields only',
     ]
     rule = ('http.*: every port of an http-crate validator on all 256 bytes in each position class (alone, leading, trailing, '
             'inside brackets / after @ / in query / in fragment), all strings of length <=2 (quick) or <=3 (thorough) over a '
             'small alphabet for method/status/scheme, boundary lengths (64/65, 65535/65536, 65534/65535), structured and mutated '
-            'authorities and paths, UTF-8 boundary sequences, capacities around 24576; hdr.req/resp/trl: every subset of '
-            '{:method,:scheme,:authority,:path,:status,:protocol,host} with good values, each good and bad value of each '
+            'authorities and paths, UTF-8 boundary sequences, capacities around 24576; hdr.req/resp/trl (pure gate functions): every '
+            'subset of {:method,:scheme,:authority,:path,:status,:protocol,host} with good values, each good and bad value of each '
             'pseudo-header, every bad regular field at every position, duplicates and contradictions, all 256 bytes as name '
-            'byte / value byte of regular and of each pseudo field, field counts 24575..24577, seeded random sections; send.*: '
-            'method x scheme x authority x path x protocol x host-field combinations and random header maps. '
-            'non-trivial = distinct cases with a non-empty input (at least one field / one byte)')
+            'byte / value byte of regular and of each pseudo field, names of 63/64/65/66/200/65535 bytes with a bad byte first / '
+            'middle / last, long values with a bad first / last byte, field counts 24575..24577, seeded random sections; '
+            'e2e.req/resp/trl: EVERY hdr case again through the real server.resolve_request / client.recv_response / '
+            'recv_trailers (both roles) over SimQuic, observing the http::Request / Response / HeaderMap handed over or the '
+            'StreamError code and the RESET_STREAM / STOP_SENDING codes put on the stream; send.* (Header constructors + '
+            'iteration): method x scheme x authority x path x protocol x host-field combinations and random header maps; '
+            'wire.*: every send case again through the real send_request / send_response / send_trailers, QPACK-decoding '
+            'the HEADERS frame written. non-trivial = distinct cases with a non-empty input (at least one field / one byte)')
 
     # ------------------------------------------------------------------ generators
     def gen_http(self, tier, rng):
@@ -326,7 +333,7 @@ class P(Property):
 
     def gen_send(self, tier, rng):
         out = []
-        methods = [b'GET', b'POST', b'OPTIONS', b'CONNECT', b'x-custom', b'connect', b'bad method']
+        methods = [b'GET', b'POST', b'OPTIONS', b'CONNECT', b'x-custom', b'connect', b'bad method', b'HEAD', b'PUT', b'DELETE']
         schemes = ['-', hx(b'http'), hx(b'https'), hx(b'ftp'), 'e', hx(b'a:b')]
         auths = ['-', hx(b'h'), hx(b'h:443'), hx(b'user@h'), hx(b'[::1]:1'), hx(b'a b')]
         paths = ['-', hx(b'/'), hx(b'/a?b=c'), hx(b'?x'), hx(b'*'), hx(b'#f'), hx(b'/a#f'), hx(b'/\xc3\xa9'), hx(b'a')]
@@ -499,9 +506,7 @@ class P(Property):
 
     # which codes a refusal must show, per end-to-end family: (StreamError code, RESET_STREAM, STOP_SENDING);
     # None = not constrained by the statement (the server resets its own send half; a client does not).
-    # e2e.resp: the client puts H3_REQUEST_CANCELLED (268) into STOP_SENDING although it reports H3_MESSAGE_ERROR
-    # (reported to the coordinator; accepted here until decided)
-    RESP_STOP_OK = ('270', '268')
+    # (F19, fixed: the client used to put H3_REQUEST_CANCELLED into STOP_SENDING while reporting H3_MESSAGE_ERROR)
 
     def refusal_ok(self, fam, kind, w, code):
         toks = dict(t.split('=', 1) for t in w[1:] if '=' in t)
@@ -512,7 +517,7 @@ class P(Property):
         if kind == 'req':
             return toks.get('reset') == code and toks.get('stop') == code
         if kind == 'resp':
-            return toks.get('stop') in self.RESP_STOP_OK
+            return toks.get('stop') == code
         return toks.get('stop') == code       # trailers, both roles
 
     def spec_ok(self, case, out, spec):
